@@ -48,6 +48,7 @@ func vpLevelOK(old, new, senderLevel int64) bool {
 }
 
 // vp:check C08 quick configs=plcheck:v1|v2;focus:users|events|notif;m:1 K=12
+// vp:check C08 both configs=plcheck:v3;focus:users;m:2 K=12 timeout=1200
 // vp:check C08 thorough configs=plcheck:v1|v2;focus:users|events|notif;m:2 K=12 timeout=1800
 // vp_C08_levels: whenever the three power-level checks accept (as powerLevelsEventAllowed chains them), no threshold
 // and no user level has been raised above, or changed from above, the sender's current level.
@@ -63,6 +64,13 @@ func vp_C08_levels() {
 	if err == nil && vpConfig("plcheck") == "v2" {
 		err = checkPowerLevelEventV2(sender, nil, old, new)
 	}
+	// v3 (room version 12): additionally no creator - the sender of the create event or an additional creator - may
+	// be named in the new users map, whatever the old content looked like
+	creator, extraCreator := vpNondetStringN("creator", 2), vpNondetStringN("additional_creator", 2)
+	if err == nil && vpConfig("plcheck") == "v3" {
+		create := vpMkEvent(RoomVersionV12, vpCreateID12, "", creator, spec.MRoomCreate, vpStrPtr(""), vpJObj("room_version", "12", "additional_creators", vpJArr(extraCreator)))
+		err = checkPowerLevelEventV3(sender, create, old, new)
+	}
 	if err == nil {
 		err = checkUserLevels(senderLevel, spec.SenderID(sender), old, new)
 	}
@@ -71,6 +79,11 @@ func vp_C08_levels() {
 	vpReach("rejected", !accepted)
 	if !accepted {
 		return
+	}
+	if vpConfig("plcheck") == "v3" {
+		for u := range new.Users {
+			vpAssert("no-creator-in-users", u != creator && u != extraCreator)
+		}
 	}
 	vpAssert("ban", vpLevelOK(old.Ban, new.Ban, senderLevel))
 	vpAssert("kick", vpLevelOK(old.Kick, new.Kick, senderLevel))
@@ -86,7 +99,7 @@ func vp_C08_levels() {
 	for k := range new.Events {
 		vpAssert("events-new-key", vpLevelOK(old.EventLevel(k, false), new.EventLevel(k, false), senderLevel))
 	}
-	if vpConfig("plcheck") == "v2" {
+	if vpConfig("plcheck") != "v1" {
 		for k := range old.Notifications {
 			vpAssert("notif-old-key", vpLevelOK(old.NotificationLevel(k), new.NotificationLevel(k), senderLevel))
 		}
